@@ -127,6 +127,18 @@ pub fn flatten<F: PrimeField>(e: &E<F>, nvars: usize) -> (Vec<F>, F) {
 /// Seeded random tree.  `coef` hands out coefficients (symbolic or literal 0 / 1 / -1 / small).
 pub fn random_tree<F: PrimeField>(rng: &mut rand_chacha::ChaChaRng, nvars: usize, depth: usize, coef: &mut dyn FnMut(&mut rand_chacha::ChaChaRng) -> F) -> E<F> {
     let var = |rng: &mut rand_chacha::ChaChaRng| rng.gen_range(0..nvars);
+    if nvars == 0 && depth > 0 {
+        // no variable leaf: constants combined with the operators that do not need a variable
+        let l = Box::new(random_tree(rng, 0, depth - 1, coef));
+        return match rng.gen_range(0..6) {
+            0 => E::Add(l, Box::new(random_tree(rng, 0, depth - 1, coef))),
+            1 => E::Sub(l, Box::new(random_tree(rng, 0, depth - 1, coef))),
+            2 => E::Neg(l),
+            3 => E::Scale(l, coef(rng)),
+            4 => E::SubConst(l, coef(rng)),
+            _ => E::Add(l, Box::new(E::Const(coef(rng)))),
+        };
+    }
     if depth == 0 || nvars == 0 {
         return match rng.gen_range(0..5) {
             0 if nvars > 0 => E::Var(var(rng)),
